@@ -116,6 +116,7 @@ def write_replay(prop_id, trace, verdict):
     path = os.path.join(d, f"{trace.get('seed', 0)}.json")
     rec = dict(trace)
     rec["verdict"] = jsonable(verdict.brief())
+    rec["hashseed"] = os.environ.get("PYTHONHASHSEED", "0")
     with open(path, "w") as fh:
         json.dump(rec, fh, indent=1)
     return path
@@ -252,10 +253,19 @@ def run_check(prop_id, tier, base_seed, budget_s, jobs, max_runs=None, quiet=Fal
         if agg["evaluations"] == 0:
             print(f"HARNESS-ERROR property={prop_id} no run completed", flush=True)
             code = EXIT_HARNESS
+    leg = None
+    if code == EXIT_OK and not os.environ.get("HEXSIM_LEG") and os.environ.get("HEXSIM_NO_HASH_LEG") != "1":
+        code, vio_info, leg = _hash_seed_leg(prop_id, tier, base_seed, budget_s, jobs)
+    agg["hash_leg"] = leg
     for k, n in sorted(agg["known_hit"].items()):
         entry = next(e for e in known if e["signature"] == k)
         print(f"KNOWN-FINDING: property={prop_id} {entry['what']} [{k}] hit in {n} run(s)", flush=True)
     wall = time.time() - t_start
+    if os.environ.get("HEXSIM_LEG"):
+        # a leg of another check run: no evidence file of its own, a machine-readable summary instead
+        print("LEG-SUMMARY " + json.dumps({"runs": agg["evaluations"], "exit": code,
+                                           "known_hits": sum(agg["known_hit"].values())}), flush=True)
+        return code
     write_evidence(prop, tier, base_seed, agg, wall, code, vio_info, jobs)
     if not quiet:
         rph = int(agg["evaluations"] / max(wall, 1e-9) * 3600)
@@ -263,6 +273,45 @@ def run_check(prop_id, tier, base_seed, budget_s, jobs, max_runs=None, quiet=Fal
               f"discards={agg['status']['discard']} known_hits={sum(agg['known_hit'].values())} "
               f"wall={wall:.1f}s runs/h={rph} exit={code}", flush=True)
     return code
+
+
+def _hash_seed_leg(prop_id, tier, base_seed, budget_s, jobs):
+    """String hashing (iteration order of sets of names) is a source of nondeterminism the process environment
+    decides.  The main batch runs under PYTHONHASHSEED=0; this leg re-executes the first runs of the same
+    batch (same traces) in a fresh interpreter under another hash seed derived from VERIF_SEED.  On a library
+    that does not depend on hash order the leg sees exactly what the main batch saw."""
+    from .util import derive_seed
+
+    h = 1 + derive_seed(base_seed, "hashseed") % 4_000_000_000
+    env = dict(os.environ)
+    env.update({"HEXSIM_HASHSEED": str(h), "HEXSIM_LEG": "hashseed",
+                "VERIF_BUDGET_S": str(max(4.0, budget_s * 0.15)), "VERIF_SEED": str(base_seed),
+                "VERIF_JOBS": str(jobs)})
+    env.pop("PYTHONHASHSEED", None)
+    try:
+        p = subprocess.run([os.path.join(VERIF, "check"), prop_id, tier], capture_output=True, text=True, env=env,
+                           timeout=budget_s * 0.15 + 900)
+    except subprocess.TimeoutExpired:
+        print(f"HARNESS-ERROR property={prop_id} hash-seed leg timed out", flush=True)
+        return EXIT_HARNESS, None, {"hashseed": h, "runs": 0, "exit": EXIT_HARNESS}
+    out = p.stdout + p.stderr
+    summary = {}
+    for ln in out.splitlines():
+        if ln.startswith("LEG-SUMMARY "):
+            summary = json.loads(ln[len("LEG-SUMMARY "):])
+    leg = {"hashseed": h, "runs": summary.get("runs", 0), "exit": p.returncode}
+    if p.returncode == EXIT_VIOLATION:
+        vio = None
+        for ln in out.splitlines():
+            if ln.startswith(("violation:", "VIOLATION ")):
+                print(ln + ("" if ln.startswith("VIOLATION") else f" [under PYTHONHASHSEED={h}]"), flush=True)
+            if ln.startswith("VIOLATION ") and "replay=" in ln:
+                vio = {"signature": "see replay", "replay": ln.split("replay=", 1)[1].strip(), "hashseed": h}
+        return EXIT_VIOLATION, vio, leg
+    if p.returncode != EXIT_OK:
+        print(f"HARNESS-ERROR property={prop_id} hash-seed leg failed (rc={p.returncode})\n{out[-1500:]}", flush=True)
+        return EXIT_HARNESS, None, leg
+    return EXIT_OK, None, leg
 
 
 def _replay_reproducers(prop, known, agg):
@@ -423,6 +472,7 @@ def write_evidence(prop, tier, base_seed, agg, wall, code, vio_info, jobs):
         "distinct_abstract_states": len(agg["states"]),
         "determinism_resamples": agg["redo"],
         "known_findings_hit": dict(agg["known_hit"]),
+        "hash_seed_leg": agg.get("hash_leg") or "not run (violation or harness error in the main batch, or a leg itself)",
         "components": {
             "real": "all of hexital/* from the repo working tree (no stubs)",
             "simulated": ["exchange (price process, market clock)", "feed (fault injector, batching)",
@@ -441,7 +491,8 @@ def write_evidence(prop, tier, base_seed, agg, wall, code, vio_info, jobs):
         "coverage": cov,
         "assumptions": getattr(prop, "ASSUMPTIONS", []) + [
             "seeded search samples schedules/faults; a clean batch is evidence, not proof",
-            "PYTHONHASHSEED=0 and TZ=UTC pinned by the launcher (C18 moves TZ itself)",
+            "PYTHONHASHSEED=0 and TZ=UTC pinned by the launcher (C18 moves TZ itself); the first runs of the batch "
+            "are executed a second time in a fresh interpreter under another hash seed (coverage.hash_seed_leg)",
         ],
         "wall_s": round(wall, 3),
         "violations": 1 if code == EXIT_VIOLATION else 0,
